@@ -370,4 +370,72 @@ def Wf (n : Net) : Prop :=
 
 instance (n : Net) : Decidable (Wf n) := by unfold Wf; exact inferInstance
 
+/-! ### which elements an operation *selects for removal* (the reading of "not selected for removal" used by the
+history-level presence theorem `C10_present_run`; compared with the oracle's reading on every step) -/
+
+/-- a cut-out drops an incoming element that keeps no incoming lanelet or no successor (`L` = the kept lanelets) -/
+def cutDropsB (L : Id → Bool) (k : Incoming) : Bool :=
+  k.inc.all (fun a => !L a) || (k.right ++ k.straight ++ k.left).all (fun a => !L a)
+
+def Op.selLB (_ : Scn) : Op → Id → Bool
+  | .netRemoveLanelet x, a => a == x
+  | .scnRemoveLanelets args _, a => (args.map (·.id)).contains a
+  | .cutOut keep _, a => !keep.contains a
+  | .fromList sel _, a => !sel.contains a
+  | _, _ => false
+
+def Op.selSB (s : Scn) : Op → Id → Bool
+  | .netRemoveSign x, t => t == x
+  | .scnRemoveSigns xs, t => xs.contains t
+  | .scnRemoveLanelets args r, t => r && (s.net.hangingSigns args).contains t
+  | .cutOut keep _, t => !(s.net.lanelets.any fun l => keep.contains l.id && l.signs.contains t)
+  | .fromList _ _, _ => true
+  | _, _ => false
+
+def Op.selTB (s : Scn) : Op → Id → Bool
+  | .netRemoveLight x, t => t == x
+  | .scnRemoveLights xs, t => xs.contains t
+  | .scnRemoveLanelets args r, t => r && (s.net.hangingLights args).contains t
+  | .cutOut keep _, t => !(s.net.lanelets.any fun l => keep.contains l.id && l.lights.contains t)
+  | .fromList _ _, _ => true
+  | _, _ => false
+
+def Op.selKB (s : Scn) : Op → Id × Id → Bool
+  | .netRemoveInter x, y => y.1 == x
+  | .scnRemoveInter x _, y => y.1 == x
+  | .cutOut keep _, y => s.net.inters.all fun i => !(i.id == y.1) || i.incomings.all fun k =>
+      !(k.id == y.2) || cutDropsB (fun a => s.net.lids.contains a && keep.contains a) k
+  | .fromList _ _, _ => true
+  | _, _ => false
+
+def Op.selIB (s : Scn) : Op → Id → Bool
+  | .netRemoveInter x, y => y == x
+  | .scnRemoveInter x _, y => y == x
+  | .cutOut keep _, y => s.net.inters.all fun i => !(i.id == y) || i.incomings.all fun k =>
+      cutDropsB (fun a => s.net.lids.contains a && keep.contains a) k
+  | .fromList _ _, _ => true
+  | _, _ => false
+
+/-- the elements of the current network an operation selects: lanelet, sign, light, intersection ids and
+(intersection id, incoming id) pairs -/
+structure Selection where
+  lan : List Id
+  sign : List Id
+  light : List Id
+  inter : List Id
+  inc : List (Id × Id)
+  deriving DecidableEq, Repr, Inhabited
+
+def Scn.selection (s : Scn) (op : Op) : Selection :=
+  { lan := s.net.lids.filter (op.selLB s)
+    sign := s.net.sids.filter (op.selSB s)
+    light := s.net.tids.filter (op.selTB s)
+    inter := s.net.iids.filter (op.selIB s)
+    inc := (s.net.inters.flatMap fun i => i.incomings.map fun k => (i.id, k.id)).filter (op.selKB s) }
+
+/-- the selections met along a history -/
+def Scn.selections : Scn → List Op → List Selection
+  | _, [] => []
+  | s, o :: os => s.selection o :: (s.step o).1.selections os
+
 end CR.Refs
